@@ -54,6 +54,22 @@ def check_label(C, label):
         return finding('chord.validate_chord_label', 'acceptance coincides with the Harte syntax', label, v,
                        'validate accepts=%s, documented grammar accepts=%s' % (v, acc))
     encs = {}
+    # strict_bass_intervals must not depend on earlier (lenient) calls: strict, lenient, strict again
+    def _enc(red, strict):
+        try:
+            e = C.encode(label, red, strict)
+            return (int(e[0]), [int(x) for x in e[1]], int(e[2]))
+        except C.InvalidChordException:
+            return 'InvalidChordException'
+        except Exception as ex:  # noqa
+            return type(ex).__name__
+    for red in (False, True):
+        first = _enc(red, True)
+        _enc(red, False)
+        again = _enc(red, True)
+        if first != again:
+            return finding('chord.encode', 'strict_bass_intervals: the result does not depend on earlier calls', [label, red], [first, again],
+                           'encode(label, %s, True) before and after a non-strict call' % red)
     for red in (False, True):
         try:
             parts = C.split(label, red)
@@ -93,6 +109,14 @@ def check_label(C, label):
             if e2 != encs[(red, False)]:
                 return finding('chord.join', 'join(split(label)) has the identical encoding', [label, red], [j, e2, encs[(red, False)]], 'differs')
     return None
+
+
+def _enc_label(C, label, red):
+    try:
+        e = C.encode(label, red, False)
+        return (int(e[0]), [int(x) for x in e[1]], int(e[2]))
+    except Exception as ex:  # noqa
+        return type(ex).__name__
 
 
 def check_quality(C, q):
